@@ -73,6 +73,7 @@ LEAVES = [
     L("enum_odd", {"type": "string", "enum": ["A-b", "c_D", "1x", ""]}, enf=True, strish=True),
     L("enum_case_pair", {"type": "string", "enum": ["utf8", "base64Url", "base64url", "hex"]}, enf=True, strish=True),   # two members differ only in case, their identifiers do not collide
     L("enum_case", {"type": "string", "enum": ["Foo", "foo", "FOO"]}, enf=True, strish=True),
+    L("enum_kw2", {"type": "string", "enum": ["Self", "async", "crate", "super", "fn", "r#x", "_"]}, enf=True, strish=True),   # keywords whose identifier only gains a trailing underscore (no collision among them)
     L("enum_kw", {"type": "string", "enum": ["type", "self", "Self", "ref"]}, enf=True, strish=True),
     L("enum_one", {"type": "string", "enum": ["only"]}, enf=True, strish=True),
     L("enum_collide", {"type": "string", "enum": ["Foo_Bar", "FooBar", "Content-Type", "ContentType"]}, enf=True, strish=True),   # identifiers collide: fallback naming
